@@ -240,7 +240,7 @@ pub fn run(ctx: &Ctx, st: &mut Stats) {
     let ns = scns.len() as i64;
     let tods = [0i64, 45_296_789_012, DAY_US - 1];
     let scns_ref = &scns;
-    let stride = ctx.tier.pick(300_011, 9, 1);
+    let stride = ctx.tier.pick(300_011, ctx.q(9, 3), 1);
     // sanitizer slices step through the days directly (a 3.6M-iteration skip loop costs minutes under Miri)
     let step = if ctx.tier == Tier::San { stride } else { 1 };
     ctx.par(st, "every current local date x 3 times of day x scenarios", true, 0, (N_DAYS as i64 + step - 1) / step, |st, i, _| {
